@@ -164,9 +164,9 @@ def run(ctx, model):
 
     # ---------------- R-LB-GUARD, class forms with several assertion patterns: every one of them is checked
     ASR = "pregex.core.assertions"
-    var_ops = [("p?", "optional"), ("p{2,3}", "range"), ("p*", "star"), ("[pq]+", "plus on a class")]
+    var_ops = [("p?", "optional"), ("p{2,3}", "range"), ("p{2,10}", "range with a two-digit bound"), ("p*", "star"), ("[pq]+", "plus on a class")]
     if ctx.tier == "quick":
-        var_ops = var_ops[:2]
+        var_ops = var_ops[:3]
     for cname in ("PrecededBy", "NotPrecededBy", "EnclosedBy", "NotEnclosedBy"):
         ci = model.cls(ASR, cname)
         init = ci.find_method("__init__")
@@ -238,6 +238,9 @@ def run(ctx, model):
         ("nested negative look-behind", "Assertion", "(?<!p)q"), ("nested look-ahead", "Assertion", "p(?=q)"),
         ("word boundary", "Assertion", "\\bp"), ("exact repetition", "Quantifier", "p{3}"), ("optional", "Quantifier", "p?"),
         ("lazy star", "Quantifier", "p*?"), ("range", "Quantifier", "[pq]{2,3}"), ("group then '?'", "Quantifier", "(?:pq)?"),
+        ("exact repetition, two digits", "Quantifier", "p{12}"), ("range with a two-digit bound", "Quantifier", "p{2,10}"),
+        ("open range with a two-digit bound", "Quantifier", "p{10,}"), ("at-most range with a two-digit bound", "Quantifier", "[pq]{,16}"),
+        ("range with three-digit bounds", "Quantifier", "p{100,250}"), ("literal then two-digit range", "Quantifier", "id\\d{,10}"),
         ("non-capturing group '(?:pq)'", "Group", "(?:pq)"), ("named group", "Group", "(?P<g>pq)"), ("flagged group", "Group", "(?i:pq)"),
     ]
     r = recvs[0]
@@ -256,6 +259,10 @@ def run(ctx, model):
                 if fx and raised:
                     ctx.violation("R-LB-WIDTH", f.relpath, f.short, "fixed-width operand refused",
                                   f"{meth} refuses a fixed-width assertion pattern", f.node.lineno, inp=inp)
+                elif not fx and not raised and o.kind == "raise":
+                    ctx.violation("R-LB-WIDTH", f.relpath, f.short, "variable-width operand: wrong exception",
+                                  f"{meth} fails with {o.exc.name} instead of {NFW} on a variable-width assertion pattern",
+                                  f.node.lineno, inp=inp, detail=o.describe())
                 elif not fx and not raised:
                     ctx.violation("R-LB-WIDTH", f.relpath, f.short, "variable-width operand accepted",
                                   f"{meth} accepts an assertion pattern without a single fixed width", f.node.lineno, inp=inp,
